@@ -21,6 +21,7 @@ import (
 	"strings"
 
 	jschema "github.com/jsightapi/jsight-schema-go-library"
+	njs "github.com/jsightapi/jsight-schema-go-library/notations/jschema"
 	"github.com/jsightapi/jsight-schema-go-library/notations/regex"
 	"github.com/jsightapi/jsight-schema-go-library/rules/enum"
 
@@ -341,10 +342,70 @@ func c18EnumUnit(c *mon.Ctx, r *mon.Rng, per int) {
 					"both spellings of the enum agree with each other but not with the membership oracle ("+o.Why+")")
 			}
 		}
+		// (4) one rule OBJECT consumed several times: two {enum: @E} references in one schema and a
+		// second schema receiving the same object; the rule must stay what it was and both schemas
+		// must validate like the inline spelling
+		{
+			two := func(rule func() *model.Rule) string {
+				return model.Canonical(model.Obj(model.P("a", c18LitNode(ex).With(rule())), model.P("b", c18LitNode(ex).With(rule()))))
+			}
+			namedText := two(func() *model.Rule { return model.REnumRef("@E") })
+			inlineText := two(func() *model.Rule { return model.REnum(lits...) })
+			rule := enum.New("@E", et.Text)
+			before := c18ValuesOf(rule)
+			mkSchema := func() (*njs.Schema, lib.Obs) {
+				sc := njs.New("root", namedText)
+				if o := lib.Safe(func() error { return sc.AddRule("@E", rule) }); !o.OK {
+					return sc, o
+				}
+				return sc, lib.Safe(sc.Check)
+			}
+			s1, o1 := mkSchema()
+			s2, o2 := mkSchema()
+			inl := buildSchema(lib.Spec{Text: inlineText})
+			c.Eval(3)
+			c.Count("enum rule objects consumed by two references and two schemas", 1)
+			after := c18ValuesOf(rule)
+			shared := map[string]any{"rule": et.Text, "schema": namedText, "inline": inlineText}
+			switch {
+			case o1.Panic != "" || o2.Panic != "":
+				c.Violate("enum-shared", shared, "rule object unchanged, same verdicts as inline", "panic: "+o1.String()+" / "+o2.String(), "using one enum rule object twice panicked")
+			case o1.OK != inl.ok || o2.OK != inl.ok:
+				c.Violate("enum-shared", shared, "rule object unchanged, same verdicts as inline",
+					fmt.Sprintf("first schema: %s; second schema: %s; inline: %s", o1, o2, inl.check), "a schema referencing one named enum rule twice (or a second schema sharing the rule object) does not check like the inline spelling")
+			case before != after:
+				c.Violate("enum-shared", shared, "rule object unchanged, same verdicts as inline", "Values() before: "+before+" after: "+after, "an enum rule object changed after schemas used it")
+			case inl.ok:
+				for _, pv := range c18Probes(r, lits)[:4] {
+					doc := model.VObject(model.M("a", pv), model.M("b", pv)).Text()
+					want := inl.validate(doc).Verdict()
+					g1, g2 := lib.ValidateOn(s1, doc).Verdict(), lib.ValidateOn(s2, doc).Verdict()
+					c.Eval(2)
+					if g1 != want || g2 != want {
+						shared["doc"] = doc
+						c.Violate("enum-shared", shared, "rule object unchanged, same verdicts as inline", fmt.Sprintf("first: %s second: %s inline: %s", g1, g2, want), "schemas sharing one enum rule object do not validate like the inline spelling")
+						break
+					}
+				}
+			}
+		}
 		if k == 0 && c.Unit < 6 {
 			c.Sample("enum rule ("+layout+")", map[string]any{"rule": et.Text, "named": namedSp.Text, "inline": inlineSp.Text})
 		}
 	}
+}
+
+// c18ValuesOf renders Values() of a rule object (literals and comments).
+func c18ValuesOf(e *enum.Enum) string {
+	vv, o := lib.SafeVal(e.Values)
+	if !o.OK {
+		return o.String()
+	}
+	var sb strings.Builder
+	for _, v := range vv {
+		fmt.Fprintf(&sb, "%s:%s:%q;", v.Type, v.Value.String(), v.Comment)
+	}
+	return sb.String()
 }
 
 func newSchemaForRule() interface {
@@ -548,6 +609,35 @@ func init() {
 		Units: func(tier string, seed uint64) int { a, b, _ := c18Sizes(tier); return a + b },
 		Run:   c18Run,
 		Replay: map[string]func(json.RawMessage) string{
+			"enum-shared": func(raw json.RawMessage) string {
+				var m struct{ Rule, Schema, Inline, Doc string }
+				json.Unmarshal(raw, &m)
+				rule := enum.New("@E", m.Rule)
+				before := c18ValuesOf(rule)
+				mk := func() (*njs.Schema, lib.Obs) {
+					sc := njs.New("root", m.Schema)
+					if o := lib.Safe(func() error { return sc.AddRule("@E", rule) }); !o.OK {
+						return sc, o
+					}
+					return sc, lib.Safe(sc.Check)
+				}
+				s1, o1 := mk()
+				s2, o2 := mk()
+				inl := buildSchema(lib.Spec{Text: m.Inline})
+				if o1.OK != inl.ok || o2.OK != inl.ok || o1.Panic != "" || o2.Panic != "" {
+					return fmt.Sprintf("first schema: %s; second schema: %s; inline: %s", o1, o2, inl.check)
+				}
+				if after := c18ValuesOf(rule); after != before {
+					return "Values() before: " + before + " after: " + after
+				}
+				if m.Doc != "" && inl.ok {
+					want := inl.validate(m.Doc).Verdict()
+					if g1, g2 := lib.ValidateOn(s1, m.Doc).Verdict(), lib.ValidateOn(s2, m.Doc).Verdict(); g1 != want || g2 != want {
+						return fmt.Sprintf("first: %s second: %s inline: %s", g1, g2, want)
+					}
+				}
+				return "rule object unchanged, same verdicts as inline"
+			},
 			"values":          ruleText(c18Values, false),
 			"ast":             ruleText(c18AST, false),
 			"values-comments": ruleText(c18Values, true),
